@@ -1,10 +1,559 @@
 package main
 
+// wkv — contract-based deductive verifier for WuKongIM (see /verif/DESIGN.md).
+
 import (
+	"encoding/json"
+	"flag"
 	"fmt"
-	_ "golang.org/x/tools/go/packages"
-	_ "golang.org/x/tools/go/ssa"
-	_ "golang.org/x/tools/go/ssa/ssautil"
+	"os"
+	"path/filepath"
+	"regexp"
+	"sort"
+	"strings"
+	"sync"
+	"time"
 )
 
-func main() { fmt.Println("wkv") }
+type PropertySpec struct {
+	Property     string   `json:"property"`
+	Packages     []string `json:"packages"`
+	Functions    []string `json:"functions"`     // extra contract keys (pkgpath.key) to verify
+	RequiredTags []string `json:"required_tags"` // property obligations that must exist (vacuity guard)
+	Assumptions  []string `json:"assumptions"`
+	NotCovered   []string `json:"not_covered"`
+	Bounded      []BoundedSpec `json:"bounded"`
+	MinObligations int    `json:"min_obligations"`
+}
+
+type BoundedSpec struct {
+	Name  string `json:"name"`
+	Pkg   string `json:"pkg"`   // package dir relative to /repo
+	File  string `json:"file"`  // test source under /verif/bounded
+	Run   string `json:"run"`   // test name
+	Bound string `json:"bound"`
+	Tier  string `json:"tier"` // "", quick, thorough
+}
+
+type KnownFinding struct {
+	Property   string `json:"property"`
+	Obligation string `json:"obligation"`
+	Region     string `json:"region"`
+	What       string `json:"what"`
+	Status     string `json:"status"` // "" (open) or "fixed"
+	Commit     string `json:"commit"`
+}
+
+type oblOutcome struct {
+	Obl    *Obligation
+	Res    *SolveResult
+	Script *Script
+	Func   string
+	KF     *KnownFinding
+}
+
+func main() {
+	if len(os.Args) < 2 {
+		usage()
+	}
+	switch os.Args[1] {
+	case "verify":
+		os.Exit(cmdVerify(os.Args[2:]))
+	case "dump":
+		os.Exit(cmdDump(os.Args[2:]))
+	case "ssa":
+		os.Exit(cmdSSA(os.Args[2:]))
+	default:
+		usage()
+	}
+}
+
+func usage() {
+	fmt.Fprintln(os.Stderr, "usage: wkv verify --property Cxx [--tier quick|thorough] [--repo /repo] [--verif /verif]\n       wkv dump --pkg ./path --func key")
+	os.Exit(2)
+}
+
+func loadKnownFindings(path string) []*KnownFinding {
+	data, err := os.ReadFile(path)
+	if err != nil {
+		return nil
+	}
+	var out []*KnownFinding
+	for _, l := range strings.Split(string(data), "\n") {
+		l = strings.TrimSpace(l)
+		if l == "" || strings.HasPrefix(l, "#") {
+			continue
+		}
+		var k KnownFinding
+		if err := json.Unmarshal([]byte(l), &k); err == nil {
+			out = append(out, &k)
+		}
+	}
+	return out
+}
+
+func contractFilesFor(prog *Program, cs *ContractSet) error {
+	for path, pk := range prog.all {
+		if !prog.inRepo(path) || len(pk.GoFiles) == 0 {
+			continue
+		}
+		dir := filepath.Dir(pk.GoFiles[0])
+		f := filepath.Join(dir, "verif_contracts.go")
+		if _, err := os.Stat(f); err == nil {
+			if err := cs.loadContractFile(f, path); err != nil {
+				return err
+			}
+		}
+	}
+	return nil
+}
+
+func cmdVerify(args []string) int {
+	fs := flag.NewFlagSet("verify", flag.ExitOnError)
+	prop := fs.String("property", "", "property id")
+	tier := fs.String("tier", "quick", "quick|thorough")
+	repo := fs.String("repo", "/repo", "repository root")
+	verif := fs.String("verif", "/verif", "verification root")
+	seed := fs.Int("seed", 0, "seed")
+	only := fs.String("only", "", "only obligations matching this regexp (debug; evidence not written)")
+	keep := fs.Bool("keep", false, "keep query files")
+	fs.Parse(args)
+	if *prop == "" {
+		usage()
+	}
+	start := time.Now()
+	specPath := filepath.Join(*verif, "specs", *prop+".json")
+	data, err := os.ReadFile(specPath)
+	if err != nil {
+		fmt.Fprintf(os.Stderr, "wkv: %v\n", err)
+		return 2
+	}
+	var spec PropertySpec
+	if err := json.Unmarshal(data, &spec); err != nil {
+		fmt.Fprintf(os.Stderr, "wkv: %s: %v\n", specPath, err)
+		return 2
+	}
+	thorough := *tier == "thorough"
+	timeout := 10
+	if thorough {
+		timeout = 60
+	}
+	if t := os.Getenv("WKV_TIMEOUT"); t != "" {
+		fmt.Sscanf(t, "%d", &timeout)
+	}
+	workDir := filepath.Join(*verif, ".work", *prop)
+	os.RemoveAll(workDir)
+	os.MkdirAll(workDir, 0o755)
+	if !*keep {
+		defer os.RemoveAll(workDir)
+	}
+	replayDir := filepath.Join(*verif, "replay", *prop)
+	os.RemoveAll(replayDir)
+
+	var problems []string // engine-level failures (drift, load errors): reported as violations, never silently skipped
+	prog, err := loadProgram(*repo, spec.Packages, nil)
+	if err != nil {
+		fmt.Fprintf(os.Stderr, "wkv: load: %v\n", err)
+		writeFailureEvidence(*verif, *prop, *tier, *seed, start, "package load failed: "+err.Error())
+		fmt.Printf("VIOLATION property=%s replay=%s no-failing-input-found\n", *prop, writeReplayNote(replayDir, "load-failure", "packages failed to load:\n"+err.Error()))
+		return 1
+	}
+	cs := newContractSet()
+	if err := contractFilesFor(prog, cs); err != nil {
+		fmt.Fprintf(os.Stderr, "wkv: contracts: %v\n", err)
+		writeFailureEvidence(*verif, *prop, *tier, *seed, start, "contract parse failed: "+err.Error())
+		fmt.Printf("VIOLATION property=%s replay=%s no-failing-input-found\n", *prop, writeReplayNote(replayDir, "contract-parse-failure", err.Error()))
+		return 1
+	}
+	kfs := loadKnownFindings(filepath.Join(*verif, "known_findings.jsonl"))
+
+	// worklist: contracts tagged with this property + listed functions + contracts they call
+	todo := map[string]bool{}
+	for full, c := range cs.Funcs {
+		if contractHasProperty(c, *prop) {
+			todo[full] = true
+		}
+	}
+	for _, f := range spec.Functions {
+		if cs.Funcs[f] == nil {
+			problems = append(problems, fmt.Sprintf("spec lists %s but no contract exists for it", f))
+			continue
+		}
+		todo[f] = true
+	}
+	done := map[string]*FuncResult{}
+	var mu sync.Mutex
+	for {
+		var batch []string
+		for f := range todo {
+			if done[f] == nil {
+				batch = append(batch, f)
+			}
+		}
+		if len(batch) == 0 {
+			break
+		}
+		sort.Strings(batch)
+		var wg sync.WaitGroup
+		sem := make(chan struct{}, 8)
+		for _, f := range batch {
+			f := f
+			c := cs.Funcs[f]
+			if c.Trusted {
+				done[f] = &FuncResult{Key: f, Contract: c}
+				continue
+			}
+			wg.Add(1)
+			sem <- struct{}{}
+			go func() {
+				defer wg.Done()
+				defer func() { <-sem }()
+				r := verifyFuncSafe(prog, cs, f, c, kfs)
+				mu.Lock()
+				done[f] = r
+				mu.Unlock()
+			}()
+		}
+		wg.Wait()
+		for _, f := range batch {
+			for _, called := range done[f].Called {
+				if cs.Funcs[called] != nil {
+					todo[called] = true
+				}
+			}
+		}
+	}
+
+	// gather obligations; apply known-finding regions
+	var outcomes []*oblOutcome
+	var onlyRe *regexp.Regexp
+	if *only != "" {
+		onlyRe = regexp.MustCompile(*only)
+	}
+	var funcs []string
+	for f := range done {
+		funcs = append(funcs, f)
+	}
+	sort.Strings(funcs)
+	trusted := map[string]bool{}
+	notes := map[string]bool{}
+	for _, f := range funcs {
+		r := done[f]
+		if r.Err != "" {
+			problems = append(problems, f+": "+r.Err)
+			continue
+		}
+		if r.Contract.Trusted {
+			trusted["trusted contract (body not verified): "+f] = true
+			continue
+		}
+		for _, t := range r.Trusted {
+			trusted[t] = true
+		}
+		for _, n := range r.Notes {
+			notes[n] = true
+		}
+		for _, o := range r.Obls {
+			if onlyRe != nil && !onlyRe.MatchString(o.Name) {
+				continue
+			}
+			outcomes = append(outcomes, &oblOutcome{Obl: o, Script: r.Script, Func: f, KF: o.KF})
+		}
+	}
+
+	// solve
+	var wg sync.WaitGroup
+	sem := make(chan struct{}, 14)
+	for i, oc := range outcomes {
+		i, oc := i, oc
+		wg.Add(1)
+		sem <- struct{}{}
+		go func() {
+			defer wg.Done()
+			defer func() { <-sem }()
+			q := buildQuery(oc.Script, oc.Obl, true)
+			file := filepath.Join(workDir, fmt.Sprintf("%04d_%s.smt2", i, sanitize(oc.Obl.Name)))
+			if oc.Obl.Cover {
+				oc.Res = solve(q, file, 3, *seed, false)
+			} else {
+				oc.Res = solve(q, file, timeout, *seed, thorough)
+			}
+		}()
+	}
+	wg.Wait()
+
+	// verdict
+	violations := 0
+	var lines []string
+	var samples []any
+	obligations, discharged := 0, 0
+	covers, coversOK := 0, 0
+	tagsSeen := map[string]bool{}
+	solverMs := int64(0)
+	bySolver := map[string]int{}
+	var knownLines []string
+	for _, oc := range outcomes {
+		o, r := oc.Obl, oc.Res
+		solverMs += r.Millis
+		if oc.KF != nil {
+			// expected: sat (finding still present). unsat: the defect is gone, print nothing.
+			if r.Status == "sat" {
+				knownLines = append(knownLines, fmt.Sprintf("KNOWN-FINDING: property=%s %s [%s]", oc.KF.Property, oc.KF.What, o.Name))
+			} else if r.Status == "unknown" {
+				knownLines = append(knownLines, fmt.Sprintf("KNOWN-FINDING: property=%s %s [%s; solver undecided inside the recorded region]", oc.KF.Property, oc.KF.What, o.Name))
+			}
+			continue
+		}
+		if o.Cover {
+			covers++
+			if r.Status == "unsat" {
+				violations++
+				p := writeReplay(replayDir, oc, "vacuity: this condition must be satisfiable but is contradictory")
+				lines = append(lines, fmt.Sprintf("VIOLATION property=%s replay=%s no-failing-input-found", *prop, p))
+			} else {
+				coversOK++
+			}
+			continue
+		}
+		obligations++
+		if o.Tag != "" {
+			tagsSeen[o.Tag] = true
+		}
+		ok := r.Status == "unsat" && (!thorough || r.Agree)
+		if ok {
+			discharged++
+			bySolver[r.Solver]++
+			if len(samples) < 12 {
+				samples = append(samples, map[string]any{"obligation": o.Name, "kind": o.Kind, "clause": o.Src, "solver": r.Solver, "ms": r.Millis})
+			}
+			continue
+		}
+		violations++
+		reason := "solver returned " + r.Status
+		if thorough && !r.Agree {
+			reason = "solvers disagree"
+		}
+		p := writeReplay(replayDir, oc, reason)
+		suffix := " no-failing-input-found"
+		if r.Status == "sat" {
+			if rp, ok := tryReplay(prog, *repo, *verif, replayDir, oc); ok {
+				p = rp
+				suffix = ""
+			}
+		}
+		lines = append(lines, fmt.Sprintf("VIOLATION property=%s replay=%s%s", *prop, p, suffix))
+		fmt.Fprintf(os.Stderr, "FAILED %s (%s) %s: %s\n", o.Name, o.Kind, o.Pos, reason)
+	}
+	for _, t := range spec.RequiredTags {
+		if !tagsSeen[t] {
+			problems = append(problems, "required property obligation "+t+" was not generated (contract-shape drift or vacuity)")
+		}
+	}
+	if obligations < spec.MinObligations {
+		problems = append(problems, fmt.Sprintf("only %d obligations generated, expected at least %d", obligations, spec.MinObligations))
+	}
+	for _, pr := range problems {
+		violations++
+		p := writeReplayNote(replayDir, "engine-"+fmt.Sprint(violations), pr)
+		lines = append(lines, fmt.Sprintf("VIOLATION property=%s replay=%s no-failing-input-found", *prop, p))
+		fmt.Fprintf(os.Stderr, "PROBLEM %s\n", pr)
+	}
+	// bounded stand-ins
+	bounded := runBounded(&spec, *repo, *verif, *tier, *prop, replayDir)
+	for _, b := range bounded {
+		if !b.OK {
+			violations++
+			lines = append(lines, fmt.Sprintf("VIOLATION property=%s replay=%s", *prop, b.Replay))
+		}
+	}
+
+	for _, l := range knownLines {
+		fmt.Println(l)
+	}
+	for _, l := range lines {
+		fmt.Println(l)
+	}
+	wall := time.Since(start).Seconds()
+	fmt.Fprintf(os.Stderr, "wkv %s %s: %d/%d obligations discharged, %d/%d covers ok, %d functions, %.1fs wall, %.1fs solver\n",
+		*prop, *tier, discharged, obligations, coversOK, covers, len(funcs), wall, float64(solverMs)/1000)
+	if onlyRe != nil {
+		if violations > 0 {
+			return 1
+		}
+		return 0
+	}
+	// evidence
+	var tb []string
+	for t := range trusted {
+		tb = append(tb, t)
+	}
+	for n := range notes {
+		tb = append(tb, "abstraction: "+n)
+	}
+	tb = append(tb, "wkv engine (SSA->SMT translation, contract parser), go/ssa v0.29.0 SSA construction, solvers z3 5.1.0 / z3 4.8.12 / cvc5 1.0.3")
+	tb = append(tb, "pointer parameters do not point into the interior of other parameters' referents (component heap, DESIGN.md 3.5)")
+	sort.Strings(tb)
+	var tags []string
+	for t := range tagsSeen {
+		tags = append(tags, t)
+	}
+	sort.Strings(tags)
+	var funcList []string
+	for _, f := range funcs {
+		if done[f].Err == "" && !done[f].Contract.Trusted {
+			funcList = append(funcList, f)
+		}
+	}
+	ev := map[string]any{
+		"property_id": *prop,
+		"tier":        *tier,
+		"seed":        *seed,
+		"level":       "proof",
+		"coverage": map[string]any{
+			"obligations":              obligations,
+			"discharged":               discharged,
+			"checker_cmd":              fmt.Sprintf("/verif/bin/wkv verify --property %s --tier %s", *prop, *tier),
+			"trusted_base":             tb,
+			"samples":                  samples,
+			"functions_under_contract": funcList,
+			"property_obligations":     tags,
+			"vacuity_covers":           map[string]int{"checked": covers, "satisfiable": coversOK},
+			"discharged_by_solver":     bySolver,
+			"solver_ms":                solverMs,
+			"per_obligation_timeout_s": timeout,
+			"integer_semantics":        "machine integers modelled exactly (range-constrained Int with wrap-around, or bit-vectors in mode bv)",
+			"bounded":                  bounded,
+			"not_covered":              spec.NotCovered,
+			"known_findings_reported":  knownLines,
+		},
+		"assumptions": append([]string{}, spec.Assumptions...),
+		"wall_s":      wall,
+		"violations":  violations,
+	}
+	os.MkdirAll(filepath.Join(*verif, "evidence"), 0o755)
+	out, _ := json.MarshalIndent(ev, "", " ")
+	os.WriteFile(filepath.Join(*verif, "evidence", *prop+".json"), append(out, '\n'), 0o644)
+	if violations > 0 {
+		return 1
+	}
+	return 0
+}
+
+func verifyFuncSafe(prog *Program, cs *ContractSet, f string, c *Contract, kfs []*KnownFinding) (r *FuncResult) {
+	defer func() {
+		if rec := recover(); rec != nil {
+			r = &FuncResult{Key: f, Contract: c, Err: fmt.Sprintf("engine panic: %v", rec)}
+			if os.Getenv("WKV_DEBUG") != "" {
+				panic(rec)
+			}
+		}
+	}()
+	return verifyFunc(prog, cs, f, c, kfs)
+}
+
+func contractHasProperty(c *Contract, prop string) bool {
+	has := func(cl []*Clause) bool {
+		for _, x := range cl {
+			if strings.HasPrefix(x.Tag, prop+".") {
+				return true
+			}
+		}
+		return false
+	}
+	if has(c.Requires) || has(c.Ensures) {
+		return true
+	}
+	for _, l := range c.Loops {
+		if has(l.Invariants) {
+			return true
+		}
+	}
+	for _, cc := range c.Calls {
+		if has(cc.Asserts) {
+			return true
+		}
+	}
+	return false
+}
+
+func writeFailureEvidence(verif, prop, tier string, seed int, start time.Time, why string) {
+	ev := map[string]any{
+		"property_id": prop, "tier": tier, "seed": seed, "level": "proof",
+		"coverage": map[string]any{"evaluations": 1, "distinct_nontrivial": 0, "explanation": why},
+		"wall_s":   time.Since(start).Seconds(), "violations": 1,
+	}
+	os.MkdirAll(filepath.Join(verif, "evidence"), 0o755)
+	out, _ := json.MarshalIndent(ev, "", " ")
+	os.WriteFile(filepath.Join(verif, "evidence", prop+".json"), append(out, '\n'), 0o644)
+}
+
+func writeReplayNote(dir, name, text string) string {
+	os.MkdirAll(dir, 0o755)
+	p := filepath.Join(dir, sanitize(name)+".txt")
+	os.WriteFile(p, []byte(text+"\n"), 0o644)
+	return p
+}
+
+func writeReplay(dir string, oc *oblOutcome, reason string) string {
+	os.MkdirAll(dir, 0o755)
+	p := filepath.Join(dir, sanitize(oc.Obl.Name)+".txt")
+	var b strings.Builder
+	fmt.Fprintf(&b, "failed obligation: %s\nkind: %s\nfunction: %s\nposition: %s\nclause: %s\nreason: %s\nsolvers tried: %s\n\n--- solver output ---\n%s\n",
+		oc.Obl.Name, oc.Obl.Kind, oc.Func, oc.Obl.Pos, oc.Obl.Src, reason, strings.Join(oc.Res.Tried, " "), oc.Res.Output)
+	if oc.Res.Status == "sat" {
+		b.WriteString("\n--- counterexample (values of the function's inputs) ---\n")
+		for i, in := range oc.Obl.Inputs {
+			_ = i
+			fmt.Fprintf(&b, "%s = %s\n", in.Name, in.Term)
+		}
+	}
+	// keep the query next to it
+	q := buildQuery(oc.Script, oc.Obl, true)
+	qp := filepath.Join(dir, sanitize(oc.Obl.Name)+".smt2")
+	os.WriteFile(qp, []byte(q), 0o644)
+	fmt.Fprintf(&b, "\nquery: %s\n", qp)
+	os.WriteFile(p, []byte(b.String()), 0o644)
+	return p
+}
+
+func cmdDump(args []string) int {
+	fs := flag.NewFlagSet("dump", flag.ExitOnError)
+	repo := fs.String("repo", "/repo", "repository root")
+	pkg := fs.String("pkg", "", "package pattern")
+	fn := fs.String("func", "", "full contract key pkgpath.key")
+	fs.Parse(args)
+	prog, err := loadProgram(*repo, []string{*pkg}, nil)
+	if err != nil {
+		fmt.Fprintln(os.Stderr, err)
+		return 2
+	}
+	cs := newContractSet()
+	if err := contractFilesFor(prog, cs); err != nil {
+		fmt.Fprintln(os.Stderr, err)
+		return 2
+	}
+	c := cs.Funcs[*fn]
+	if c == nil {
+		fmt.Fprintln(os.Stderr, "no contract for", *fn)
+		for k := range cs.Funcs {
+			fmt.Fprintln(os.Stderr, "  have", k)
+		}
+		return 2
+	}
+	os.Setenv("WKV_DEBUG", "1")
+	r := verifyFunc(prog, cs, *fn, c, nil)
+	if r.Err != "" {
+		fmt.Fprintln(os.Stderr, "error:", r.Err)
+		return 1
+	}
+	for _, o := range r.Obls {
+		fmt.Printf("; ---- %s (%s) %s\n", o.Name, o.Kind, o.Src)
+	}
+	if len(r.Obls) > 0 {
+		fmt.Println(buildQuery(r.Script, r.Obls[len(r.Obls)-1], true))
+	}
+	for _, n := range r.Notes {
+		fmt.Println("; note:", n)
+	}
+	return 0
+}
